@@ -238,6 +238,12 @@ Qed.
 (* r = ParseResults([g], 'g') with g = ParseResults(['x']):  r['g'] is r[0] *)
 Definition dm_heap : heap :=
   [OList [VS (TStr [120%N])]; OPR 0 [] [] (Some [103%N]); OList [VRef 1]; OOcc [(VRef 1, 0%Z)]; OPR 2 [([103%N], 3)] [] (Some [103%N])].
+Lemma dm_heap_closed : closed (length dm_heap) dm_heap.
+Proof.
+  split; [simpl; lia|]. intros a o Ha E.
+  destruct a as [|[|[|[|[|a]]]]]; simpl in *; try lia; injection E as <-; simpl; repeat constructor; lia.
+Qed.
+
 Theorem deepcopy_method_refuted : exists h r fuelc h1 d path t m fuel,
   closed (length h) h /\ r < length h /\ h_deepcopy_method fuelc h r = Some (h1, d) /\
   resolve h1 d path = Some t /\                                     (* d['g'] ... *)
